@@ -102,6 +102,8 @@ func checkC19(w *World, r *Report) {
 	r.Rule("R19.2", "only the wrapper's own Close stores its flag", 5)
 	r.Rule("R19.3", "every other closer type in package streams promotes Close/Closed from an embedded field filled by a NewSafe* constructor in every literal", 7)
 	r.Rule("R19.4", "reader+writer pair closes both halves on all paths; Closed is the conjunction", 2)
+	r.Rule("R19.7", "a NewSafe* constructor never wraps the raw resource of an existing close-once wrapper in a second one", 4)
+	c19SafeCtorNeverRewrapsInner(w, r)
 	r.Rule("R19.6", "the wrapped resource is closed by the wrapper's own Close and by no other method", 5)
 	r.Rule("R19.5", "TryClose/LogClose consult Closed() before Close()", 2)
 
